@@ -140,6 +140,7 @@ class PieceNode:
         self.paths = []
         self.result = None
         self.dest = None
+        self.matches = {}
 
     def append(self, pathnode: PathNode):
         """
@@ -152,9 +153,16 @@ class PieceNode:
         """
         self.paths.append(pathnode)
 
-    def _find_matches(self, filemap: dict, paths: list, data: bytes) -> bool:
+    def _find_matches(self,
+                      filemap: dict,
+                      paths: list,
+                      data: bytes,
+                      chosen: tuple = ()) -> bool:
         """
         Gather relavent sections of the files in the list and check the hash.
+
+        Every combination of candidates whose data hashes to the piece is
+        recorded in `matches`, keyed by the torrent relative file path.
 
         Parameters
         ----------
@@ -164,6 +172,8 @@ class PieceNode:
             list of pathnodes
         data : bytes
             raw file contents
+        chosen : tuple
+            the (file, candidate) pairs that produced data
 
         Returns
         -------
@@ -171,25 +181,25 @@ class PieceNode:
             success state
         """
         if not paths:
-            piece_hash = sha1(data).digest()  # nosec
-            return piece_hash == self.piece
+            if sha1(data).digest() != self.piece:  # nosec
+                return False
+            for full, loc in chosen:
+                self.matches.setdefault(full, set()).add(loc)
+            return True
         pathnode = paths[0]
         if pathnode.pad:
             partial = pathnode.get_part(None)
-            return self._find_matches(filemap, paths[1:], data + partial)
-        filename = pathnode.filename
-        if filename not in filemap:
-            return False  # pragma: nocover
-        for loc, size in filemap[filename]:
+            return self._find_matches(filemap, paths[1:], data + partial,
+                                      chosen)
+        found = False
+        for loc, size in filemap.get(pathnode.filename, []):
             if size != len(pathnode):
                 continue
             partial = pathnode.get_part(loc)
-            if self._find_matches(filemap, paths[1:], data + partial):
-                dest_path = os.path.join(self.dest, pathnode.full)
-                if _is_within(self.dest, dest_path):
-                    copypath(loc, dest_path)
-                return True
-        return False
+            picked = chosen + ((pathnode.full, loc), )
+            if self._find_matches(filemap, paths[1:], data + partial, picked):
+                found = True
+        return found
 
     def find_matches(self, filemap: dict, dest: str) -> bool:
         """
@@ -208,6 +218,7 @@ class PieceNode:
             success status
         """
         self.dest = dest
+        self.matches = {}
         self.result = self._find_matches(filemap, self.paths[:], bytes())
         return self.result
 
@@ -363,24 +374,28 @@ class Metadata(CbMixin, ProgMixin):
             target destination path
         """
         self._map_pieces()
-        copied = []
+        # a candidate is only copied if it verifies in every piece that
+        # contains a part of the file
+        verified = {}
         for piece_node in self.piece_nodes:
-            paths = piece_node.paths
-            if len(paths) == 1 and paths[0].full in copied:
-                self._update()
-                continue
-            if piece_node.find_matches(filemap, dest):
-                for pathnode in paths:
-                    if pathnode.pad:
-                        continue
-                    if pathnode.full not in copied:
-                        copied.append(pathnode.full)
-                        dest_path = os.path.join(dest, pathnode.full)
-                        self._update()
-                        self.cb(pathnode.full, dest_path, self.num_pieces)
+            piece_node.find_matches(filemap, dest)
+            self._update()
+            for pathnode in piece_node.paths:
+                if pathnode.pad:
+                    continue
+                found = piece_node.matches.get(pathnode.full, set())
+                if pathnode.full in verified:
+                    found = found & verified[pathnode.full]
+                verified[pathnode.full] = found
         for entry in self.files:
             if entry["length"] == 0:
                 self._copy_empty(entry, filemap, dest)
+                continue
+            candidates = sorted(verified.get(entry["full"], ()))
+            dest_path = os.path.join(dest, entry["full"])
+            if candidates and _is_within(dest, dest_path):
+                copypath(candidates[0], dest_path)
+                self.cb(entry["full"], dest_path, self.num_pieces)
 
     def _match_v2(self, filemap: dict, dest: str):
         """
